@@ -15,9 +15,9 @@ BOUNDS = {'quick': 'comparable type shapes of depth <= 2 over int nat mutez time
                    'table of real representatives of every kind',
           'thorough': 'depth <= 3, strings/bytes <= 3 symbols, literals of 2..4 elements'}
 OUTSIDE = ['never (no values)', 'payload-level order of base58-rendered values beyond the representatives (bridged by the C09 lemma)',
-           'relative order of two entrypoint suffixes on the same address and of sig/edsig renderings of equal bytes: only the order axioms are asserted']
+           'relative order of sig/edsig renderings of equal bytes: only the order axioms are asserted']
 ASSUMPTIONS = ['reference order: ints numerically; string/bytes bytewise (prefix smaller); False < True; pairs lexicographic; None < Some; '
-               'Left < Right; addresses implicit < originated < rollup; key hashes/keys by curve (ed < secp < p256 < bls) then bytes']
+               'Left < Right; addresses implicit < originated < rollup, then the entrypoint name bytewise with no entrypoint = "default"; key hashes/keys by curve (ed < secp < p256 < bls) then bytes']
 
 SHAPES_QUICK = ['int', 'nat', 'mutez', 'timestamp', 'string', 'bytes', 'bool', 'unit',
                 'pair int int', 'pair string nat', 'pair bool bytes', 'pair (pair int int) int', 'pair int (pair nat string)',
@@ -141,6 +141,9 @@ def representatives(kind):
                 out.append(((rank, pl, ''), _b58(pfx, pl)))
         out.append(((4, lo, 'foo'), _b58(b'KT1', lo) + '%foo'))
         out.append(((0, hi, 'bar'), _b58(b'tz1', hi) + '%bar'))
+        # entrypoint names on both sides of "default" (a bare address carries the default entrypoint)
+        for ep in ('abc', 'Burn', 'mint', 'defaulu', 'defaul'):
+            out.append(((4, lo, ep), _b58(b'KT1', lo) + '%' + ep))
         return out
     if kind == 'key':
         out = []
@@ -164,8 +167,10 @@ def _dom_value(kind, text):
 
 
 def _ref_dom(kind, ka, kb):
-    if kind == 'address' and ka[:2] == kb[:2] and ka[2] != kb[2]:
-        return None      # same destination, different entrypoints: only the axioms are asserted
+    if kind == 'address':
+        # destination first, then the entrypoint name bytewise; no entrypoint = "default"
+        x, y = (ka[0], ka[1], (ka[2] or 'default').encode()), (kb[0], kb[1], (kb[2] or 'default').encode())
+        return -1 if x < y else (0 if x == y else 1)
     x, y = ka[:2], kb[:2]
     return -1 if x < y else (0 if x == y and ka == kb else 1)
 
@@ -230,8 +235,8 @@ def conc_frompy(P, w):
         return {'ok': True, 'note': 'duplicate choice'}
     texts = [reps[i][1] for i in idx]
     rank = {reps[i][1]: reps[i][0] for i in idx}
-    if kind == 'address' and len({r[:2] for r in rank.values()}) != len(rank):
-        return {'ok': True, 'note': 'same destination with different entrypoints: order not asserted'}
+    if kind == 'address':
+        rank = {t: (r[0], r[1], (r[2] or 'default').encode()) for t, r in rank.items()}
     exp = [t for t in sorted(texts, key=lambda t: rank[t])]
     st = mich.T({'prim': 'set', 'args': [{'prim': kind}]})
     mt = mich.T({'prim': 'map', 'args': [{'prim': kind}, {'prim': 'unit'}]})
